@@ -54,12 +54,14 @@ RULE = ("case = explicit op list (cred / attest / recred / blob / reopen / read 
         "crash point of 2 scripted workloads (copy model vs real death). evaluations = reopened crash states. "
         "Non-trivial/distinct = distinct (normalised statement at the crash point, op kind, op index, #acked records); "
         "for second crashes (first tag, second tag).")
-COMPONENTS = {"real": ["SQLite 3 on real temporary files (WAL, synchronous=NORMAL, as configured by ipv8.database)",
+COMPONENTS = {"real": ["SQLite 3 on real temporary files (WAL, synchronous=NORMAL, as configured by ipv8.database; the "
+                       "scratch directory is a tempfile.mkdtemp() on /dev/shm when that exists, else the default tmp dir)",
                        "ipv8.database.Database", "ipv8.attestation.identity.database.IdentityDatabase",
                        "ipv8.attestation.identity.manager.IdentityManager / PseudonymManager", "TokenTree / Token / Metadata "
                        "/ Attestation signing and verification", "ipv8.attestation.wallet.database.AttestationsDB",
                        "thorough: a real child process killed by a real SIGKILL (strace syscall injection / self-kill)"],
-              "stub": ["quick tier: process death is modelled by copying db/-wal/-shm/-journal at the crash point",
+              "stub": ["quick tier: process death is modelled by copying db/-wal/-shm/-journal at the crash point "
+                       "(thorough: validated against self-killing children, which must leave exactly the same visible rows)",
                        "wallet attestation object / secret key are byte-string stand-ins (only serialisation is used "
                        "by the database layer)", "time.time() is a constant epoch; keys come from the seeded key seam"]}
 ASSUMPTIONS = ["process death only (SIGKILL / crash): everything written with write() reaches the file; power loss, "
